@@ -4,6 +4,9 @@ Three ways on the same generated lattice programs and inputs:
   implementation  the real macro + rustc (gen.prog), rows decoded from their `{:?}` output
   model           coq/LatEngine/LatEval.v run_plan on the plan dumped by the real front end (vm_compute)
   specification   python oracle: Kleene iteration of the one-step consequence operator with joins
+The lattice column types are the shipped ones: scalars / sets (gen/c03_vocab.py part 1, LatEngine/LatVocab.v) and COMPOSITE values -
+Product over arrays and tuples, and Dual / Option / Rc / Box / Reverse around them (c03_vocab.COMPOSITE, LatEngine/LatVocabArr.v, whose
+join_mut is C16's model `jm (denote t)`) - in programs where a single join_mut has to move several components at once.
 """
 import json
 import os
@@ -19,6 +22,7 @@ FUEL = 300
 PRELUDE = ("From Coq Require Import List ZArith Bool.\n"
            "From AV Require Import Engine.Core Engine.Eval Engine.Validate.\n"
            "From AV Require Import LatEngine.LatSyntax LatEngine.LatEval LatEngine.LatPlan LatEngine.LatVocab.\n"
+           "From AV Require Import LatEngine.LatVocabArr.\n"
            "Import ListNotations.\nOpen Scope Z_scope.\n")
 
 
@@ -39,6 +43,19 @@ def gen_cases(tier, seed):
             inputs.append(inp)
             styles.append(st)
         cases.append(dict(id="c03_%d" % i, prog=p, inputs=inputs, styles=styles))
+    # composite lattice columns (Product over arrays / tuples, and Dual / Option / Rc / Box / Reverse around them): every
+    # composite type in turn, inputs in which the values of a key arrive in random / rising / falling order
+    rng2 = lib.rng_for(seed, PROP + "/composite")
+    tys = list(voc.COMPOSITE)
+    m = 30 if tier == "quick" else 300
+    for i in range(m):
+        p = g.composite_program(rng2, ty=tys[i % len(tys)])
+        inputs, styles = [], []
+        for _ in range(ninp):
+            inp, st = g.composite_input(rng2, p)
+            inputs.append(inp)
+            styles.append(st)
+        cases.append(dict(id="c03_comp_%d" % i, prog=p, inputs=inputs, styles=styles))
     return cases
 
 
@@ -99,7 +116,7 @@ def model_exprs(p, dump, inputs):
     relnums = dl.cnats(R(n) for n, _, _ in p["rels"])
     exprs = ["(validate %s %s %s && lat_plan_ok (lv_islat %s) %s %s)" % (arities, rules, plan, lats, arities, plan)]
     for inp in inputs:
-        exprs.append("option_map (fun st => lv_show %s (l_rows st)) (run_plan lv_interp (lv_islat %s) (lv_jm %s) lv_shuffle lv_swap %d%%nat %s %s)"
+        exprs.append("option_map (fun st => lv_show %s (l_rows st)) (run_plan lv2_interp (lv_islat %s) (lv2_jm %s) lv_shuffle lv_swap %d%%nat %s %s)"
                      % (relnums, lats, lats, FUEL, plan, g.coq_db(p, inp, R)))
     inv = {v: k for k, v in R.d.items()}
     return exprs, inv
@@ -147,12 +164,13 @@ def run_cases(cases, tag="c03", coq_timeout=60):
             r["valid"] = v[0]
             r["model"] = [decode_model(x, invs[c["id"]]) for x in v[1:]]
         orc = g.Oracle(c["prog"])
-        r["raised"], r["rounds"] = [], []
+        r["raised"], r["rounds"], r["multi"] = [], [], []
         for inp in c["inputs"]:
             st = orc.run(inp)
             r["spec"].append(None if st is None else g.canon_state(c["prog"], st))
             r["raised"].append(max(orc.raised.values()) if orc.raised else 0)
             r["rounds"].append(orc.rounds)
+            r["multi"].append(orc.multi)
         out.append(r)
     return out
 
@@ -253,6 +271,7 @@ def tie(tier, seed, replay):
         results += run_cases(cases[i:i + chunk])
     mism, feats, shapes, styles, distinct = [], {}, {}, {}, set()
     raised_hist, rounds_hist = {}, {}
+    multi_runs, multi_joins, multi_by_type = 0, 0, {}
     nskipped = sum(1 for r in results if r["skipped"])
     nontriv = 0
     for r in results:
@@ -272,6 +291,11 @@ def tie(tier, seed, replay):
             raised_hist[b] = raised_hist.get(b, 0) + 1
             b = min(r["rounds"][k], 14)
             rounds_hist[b] = rounds_hist.get(b, 0) + 1
+            if r["multi"][k]:
+                multi_runs += 1
+                multi_joins += r["multi"][k]
+                for ty in set(lats.values()) & set(voc.COMPOSITE):
+                    multi_by_type[ty] = multi_by_type.get(ty, 0) + 1
             spec = r["spec"][k]
             derived = spec is not None and any(len(spec[n]) > len(inp.get(n, [])) or sorted(spec[n]) != sorted(map(tuple, inp.get(n, []))) for n in lats)
             if looping and derived:
@@ -285,12 +309,14 @@ def tie(tier, seed, replay):
             s["impl"] = {k: v[:6] for k, v in g.decode_snapshot(r["case"]["prog"], r["impl"][0]["snaps"][-1]).items()}
         sample.append(s)
     return dict(evaluations=sum(len(r["case"]["inputs"]) for r in ok), distinct_nontrivial=len(distinct),
-                rule="lattice programs (shortest / widest path, reachability sets, constant propagation, random monotone programs over u32-max, Dual<u32>, Option<u32>, bool, (u32,u32), Set<u32>, BoundedSet<2,u32>, ConstPropagation<u32>; arities 1-3) x 3-4 inputs (incl. graphs on which one key is improved up to 12 times over as many iterations, lattice-typed input rows); non-trivial = a lattice relation is dynamic in a looping SCC and the run changes a lattice relation; distinct = distinct (plan summary, input)",
+                rule="lattice programs (shortest / widest path, reachability sets, constant propagation, random monotone programs over u32-max, Dual<u32>, Option<u32>, bool, (u32,u32), Set<u32>, BoundedSet<2,u32>, ConstPropagation<u32>; arities 1-3; component-wise maxima / lock-step recursion / paths / non-linear merges / random monotone programs over the composite columns Product<[u32;2]>, Product<[u32;3]>, Dual<Product<[u32;2]>>, Option<Product<[u32;2]>>, Product<[Dual<u32>;2]>, Product<(u32,Dual<u32>,u32)>, Product<(u32,Dual<u32>)>, Rc / Box / Reverse<Product<[u32;2]>> with the values of a key arriving in random / rising / falling order) x 3-4 inputs (incl. graphs on which one key is improved up to 12 times over as many iterations, lattice-typed input rows); non-trivial = a lattice relation is dynamic in a looping SCC and the run changes a lattice relation; distinct = distinct (plan summary, input)",
                 samples=sample, distribution=dict(programs=len(ok), shapes=shapes, features=feats, input_styles=styles, recursive_changing_runs=nontriv,
-                                                   most_raised_key_times=dict(sorted(raised_hist.items())), naive_rounds=dict(sorted(rounds_hist.items()))),
+                                                   most_raised_key_times=dict(sorted(raised_hist.items())), naive_rounds=dict(sorted(rounds_hist.items())),
+                                                   runs_with_a_join_moving_2plus_components=multi_runs, joins_moving_2plus_components=multi_joins,
+                                                   runs_with_such_a_join_by_composite_type=dict(sorted(multi_by_type.items()))),
                 mismatches=mism,
                 trusted_base=["FRONT hook (ascent_macro/src/verif_hook.rs) printing the MIR plan; gen/c03_gen.py pairing the dumped plan with the source rules (core-form programs: checked by shape) and rendering Rust / Coq; gen/prog.py generated crates",
-                              "gen/c03_vocab.py: the coding of lattice values as integers and the monotone vocabulary, written three times (Rust templates, coq/LatEngine/LatVocab.v, python); a disagreement between them shows up as a mismatch",
+                              "gen/c03_vocab.py: the coding of lattice values as integers and the monotone vocabulary, written three times (Rust templates, coq/LatEngine/LatVocab.v + LatVocabArr.v, python); a disagreement between them shows up as a mismatch; join_mut of the composite types is not rewritten in the vocabulary: it is Lattice/LatModel.v `jm (denote t)` (the C16 model) transported to codes",
                               "code generation from MIR to Rust (ascent_codegen.rs) is modelled by hand in LatEngine/LatEval.v and tied by these runs, not verified",
                               "rustc, hashbrown / std collections meet their documented semantics"],
                 assumptions=["lattice laws of the shipped lattice types: property C16", "generated programs are monotone by construction (vocabulary of monotone operations and upward-closed tests)",
